@@ -68,6 +68,18 @@ pub enum Ex {
     IfExp(Box<Ex>, Box<Ex>, Vec<(Ex, Ex)>, Box<Ex>),
     /// `e :: Type`
     Cast(Box<Ex>, Ty),
+    /// explicit type instantiation `prefix<<T, ...>>`
+    Inst(Box<Ex>, Vec<Ty>),
+    /// `prefix:method<<T, ...>>(args)`
+    MethodInst(Box<Ex>, String, Vec<Ty>, Args),
+    /// interpolated string: literal segments and `{value}` segments
+    Interp(Vec<Seg>),
+}
+
+#[derive(Clone, Debug, PartialEq)]
+pub enum Seg {
+    Str(Vec<u8>),
+    Val(Ex),
 }
 
 #[derive(Clone, Debug, PartialEq)]
@@ -78,6 +90,12 @@ pub enum St {
     LocalT(Vec<(String, Option<Ty>)>, Vec<Ex>),
     /// exported?, name, generic parameters, type
     TypeDecl(bool, String, Vec<Generic>, Ty),
+    /// `[export] type function name(...) ... end`
+    TypeFunction(bool, String, Func),
+    /// generic for with at least one annotated variable
+    GForT(Vec<(String, Option<Ty>)>, Vec<Ex>, Blk),
+    /// numeric for with an annotated variable
+    NForT(String, Ty, Ex, Ex, Option<Ex>, Blk),
     Do(Blk),
     CallSt(Ex),
     Compound(usize, Ex, Ex),
@@ -234,7 +252,8 @@ fn to_prefix(e: &Ex) -> n::Prefix {
         Ex::Paren(inner) => n::ParentheseExpression::new(to_expr(inner)).into(),
         Ex::Field(p, name) => n::FieldExpression::new(to_prefix(p), name.as_str()).into(),
         Ex::Index(p, k) => n::IndexExpression::new(to_prefix(p), to_expr(k)).into(),
-        Ex::Call(..) => to_call(e).into(),
+        Ex::Call(..) | Ex::MethodInst(..) => to_call(e).into(),
+        Ex::Inst(p, types) => n::TypeInstantiationExpression::new(to_prefix(p), types.iter().map(to_type).collect()).into(),
         // anything else is not a prefix expression: wrap (generators never produce this)
         other => n::ParentheseExpression::new(to_expr(other)).into(),
     }
@@ -268,6 +287,15 @@ fn to_call(e: &Ex) -> n::FunctionCall {
                 arguments,
                 method.as_ref().map(|m| n::Identifier::new(m.as_str())),
             )
+        }
+        Ex::MethodInst(p, method, types, args) => {
+            let arguments: n::Arguments = match args {
+                Args::Tuple(values) => n::TupleArguments::new(values.iter().map(to_expr).collect()).into(),
+                Args::Str(s) => n::Arguments::String(n::StringExpression::from_value(s.clone())),
+                Args::Table(entries) => n::Arguments::Table(to_table(entries)),
+            };
+            n::FunctionCall::new(to_prefix(p), arguments, None)
+                .with_type_instantiation_method(method.as_str(), types.iter().map(to_type).collect())
         }
         _ => panic!("to_call on a non-call"),
     }
@@ -303,6 +331,9 @@ fn to_function(f: &Func) -> n::FunctionExpression {
         if let Some(r) = &sig.ret {
             node = node.with_return_type(to_return(r));
         }
+        for a in &sig.attrs {
+            node = node.with_attribute(n::NamedAttribute::new(a.as_str()));
+        }
     }
     node
 }
@@ -332,6 +363,18 @@ pub fn to_expr(e: &Ex) -> n::Expression {
             node.into()
         }
         Ex::Cast(inner, ty) => n::TypeCastExpression::new(to_expr(inner), to_type(ty)).into(),
+        Ex::Inst(p, types) => n::TypeInstantiationExpression::new(to_prefix(p), types.iter().map(to_type).collect()).into(),
+        Ex::MethodInst(..) => to_call(e).into(),
+        Ex::Interp(segments) => {
+            let mut node = n::InterpolatedStringExpression::empty();
+            for seg in segments {
+                node = match seg {
+                    Seg::Str(s) => node.with_segment(n::StringSegment::from_value(s.clone())),
+                    Seg::Val(v) => node.with_segment(n::ValueSegment::new(to_expr(v))),
+                };
+            }
+            node.into()
+        }
     }
 }
 
@@ -387,6 +430,22 @@ pub fn to_statement(s: &St) -> n::Statement {
                     (Generic::Pack(v), Some(p)) => {
                         p.with_generic_type_pack(n::GenericTypePack::new(v.as_str())).expect("generic pack order")
                     }
+                    (Generic::PackDefault(v, d), previous) => {
+                        let default: n::GenericTypePackDefault = match d {
+                            PackDefault::Pack(pack) => n::GenericTypePackDefault::TypePack(Box::new(to_pack(pack))),
+                            PackDefault::Var(TyVar::Variadic(t)) => {
+                                n::GenericTypePackDefault::VariadicTypePack(n::VariadicTypePack::new(to_type(t)))
+                            }
+                            PackDefault::Var(TyVar::Generic(g)) => {
+                                n::GenericTypePackDefault::GenericTypePack(n::GenericTypePack::new(g.as_str()))
+                            }
+                        };
+                        let with_default = n::GenericTypePackWithDefault::new(n::GenericTypePack::new(v.as_str()), default);
+                        match previous {
+                            None => n::GenericParametersWithDefaults::from_generic_type_pack_with_default(with_default),
+                            Some(p) => p.with_generic_type_pack_with_default(with_default),
+                        }
+                    }
                 });
             }
             if let Some(p) = params {
@@ -397,6 +456,47 @@ pub fn to_statement(s: &St) -> n::Statement {
             }
             node.into()
         }
+        St::TypeFunction(exported, name, f) => {
+            let mut node = n::TypeFunctionStatement::new(name.as_str(), to_block(&f.body), typed_params(f), f.variadic);
+            if let Some(sig) = &f.sig {
+                if let Some(g) = to_generic_parameters(&sig.generics) {
+                    node = node.with_generic_parameters(g);
+                }
+                if let Some(v) = &sig.variadic_type {
+                    node = node.with_variadic_type(to_function_variadic(v));
+                }
+                if let Some(r) = &sig.ret {
+                    node = node.with_return_type(to_return(r));
+                }
+            }
+            if *exported {
+                node = node.export();
+            }
+            node.into()
+        }
+        St::GForT(names, exprs, b) => n::GenericForStatement::new(
+            names
+                .iter()
+                .map(|(name, t)| {
+                    let id = n::TypedIdentifier::new(name.as_str());
+                    match t {
+                        Some(t) => id.with_type(to_type(t)),
+                        None => id,
+                    }
+                })
+                .collect(),
+            exprs.iter().map(to_expr).collect(),
+            to_block(b),
+        )
+        .into(),
+        St::NForT(name, t, a, b, step, body) => n::NumericForStatement::new(
+            n::TypedIdentifier::new(name.as_str()).with_type(to_type(t)),
+            to_expr(a),
+            to_expr(b),
+            step.as_ref().map(to_expr),
+            to_block(body),
+        )
+        .into(),
         St::Do(b) => n::DoStatement::new(to_block(b)).into(),
         St::CallSt(c) => to_call(c).into(),
         St::Compound(op, var, val) => {
@@ -418,6 +518,9 @@ pub fn to_statement(s: &St) -> n::Statement {
                 }
                 if let Some(r) = &sig.ret {
                     node = node.with_return_type(to_return(r));
+                }
+                for a in &sig.attrs {
+                    node = node.with_attribute(n::NamedAttribute::new(a.as_str()));
                 }
             }
             node.into()
@@ -451,6 +554,9 @@ pub fn to_statement(s: &St) -> n::Statement {
                 }
                 if let Some(r) = &sig.ret {
                     node = node.with_return_type(to_return(r));
+                }
+                for a in &sig.attrs {
+                    node = node.with_attribute(n::NamedAttribute::new(a.as_str()));
                 }
             }
             node.into()
@@ -507,7 +613,7 @@ pub fn from_expr(e: &n::Expression) -> Result<Ex, String> {
                 params: f.iter_parameters().map(|p| p.get_name().clone()).collect(),
                 variadic: f.is_variadic(),
                 body: from_block(f.get_block())?,
-                sig: sig_of(f.iter_parameters(), f.get_generic_parameters(), f.get_variadic_type(), f.get_return_type())?,
+                sig: sig_of(f.iter_parameters(), f.get_generic_parameters(), f.get_variadic_type(), f.get_return_type(), Some(f.attributes()))?,
             }))
         }
         X::Table(t) => Ex::Table(from_entries(t)?),
@@ -520,8 +626,17 @@ pub fn from_expr(e: &n::Expression) -> Result<Ex, String> {
             Box::new(from_expr(i.get_else_result())?),
         ),
         X::TypeCast(c) => Ex::Cast(Box::new(from_expr(c.get_expression())?), from_type(c.get_type())?),
-        X::InterpolatedString(_) => return Err("interpolated string".into()),
-        X::TypeInstantiation(_) => return Err("type instantiation".into()),
+        X::InterpolatedString(i) => Ex::Interp(
+            i.iter_segments()
+                .map(|seg| {
+                    Ok(match seg {
+                        n::InterpolationSegment::String(s) => Seg::Str(s.get_value().to_vec()),
+                        n::InterpolationSegment::Value(v) => Seg::Val(from_expr(v.get_expression())?),
+                    })
+                })
+                .collect::<Result<_, String>>()?,
+        ),
+        X::TypeInstantiation(t) => from_inst(t)?,
     })
 }
 
@@ -546,8 +661,12 @@ fn from_prefix(p: &n::Prefix) -> Result<Ex, String> {
         n::Prefix::Field(f) => from_field(f)?,
         n::Prefix::Index(i) => from_index(i)?,
         n::Prefix::Call(c) => from_call(c)?,
-        n::Prefix::TypeInstantiation(_) => return Err("type instantiation".into()),
+        n::Prefix::TypeInstantiation(t) => from_inst(t)?,
     })
+}
+
+fn from_inst(t: &n::TypeInstantiationExpression) -> Result<Ex, String> {
+    Ok(Ex::Inst(Box::new(from_prefix(t.get_prefix())?), t.iter_types().map(from_type).collect::<Result<_, _>>()?))
 }
 
 fn from_field(f: &n::FieldExpression) -> Result<Ex, String> {
@@ -557,14 +676,19 @@ fn from_index(i: &n::IndexExpression) -> Result<Ex, String> {
     Ok(Ex::Index(Box::new(from_prefix(i.get_prefix())?), Box::new(from_expr(i.get_index())?)))
 }
 fn from_call(c: &n::FunctionCall) -> Result<Ex, String> {
-    if c.has_method_type_instantiation() {
-        return Err("type instantiation".into());
-    }
     let args = match c.get_arguments() {
         n::Arguments::Tuple(t) => Args::Tuple(t.iter_values().map(from_expr).collect::<Result<_, _>>()?),
         n::Arguments::String(s) => Args::Str(s.get_value().to_vec()),
         n::Arguments::Table(t) => Args::Table(from_entries(t)?),
     };
+    if c.has_method_type_instantiation() {
+        return Ok(Ex::MethodInst(
+            Box::new(from_prefix(c.get_prefix())?),
+            c.get_method().map(|m| m.get_name().clone()).unwrap_or_default(),
+            c.get_method_type_instantiation().map(from_type).collect::<Result<_, _>>()?,
+            args,
+        ));
+    }
     Ok(Ex::Call(
         Box::new(from_prefix(c.get_prefix())?),
         c.get_method().map(|m| m.get_name().clone()),
@@ -577,8 +701,19 @@ fn sig_of<'a>(
     generics: Option<&n::GenericParameters>,
     variadic: Option<&n::FunctionVariadicType>,
     ret: Option<&n::FunctionReturnType>,
+    attributes: Option<&n::Attributes>,
 ) -> Result<Option<Box<Sig>>, String> {
+    let mut attrs = Vec::new();
+    if let Some(attributes) = attributes {
+        for a in attributes.iter_attributes() {
+            match a {
+                n::Attribute::Name(named) => attrs.push(named.get_identifier().get_name().clone()),
+                n::Attribute::Group(_) => return Err("attribute group".into()),
+            }
+        }
+    }
     let sig = Sig {
+        attrs,
         generics: from_generic_parameters(generics),
         param_types: params
             .map(|p| match p.get_type() {
@@ -664,29 +799,43 @@ pub fn from_statement(s: &n::Statement) -> Result<St, String> {
                     params: plain_names(f.iter_parameters()),
                     variadic: f.is_variadic(),
                     body: from_block(f.get_block())?,
-                    sig: sig_of(f.iter_parameters(), f.get_generic_parameters(), f.get_variadic_type(), f.get_return_type())?,
+                    sig: sig_of(f.iter_parameters(), f.get_generic_parameters(), f.get_variadic_type(), f.get_return_type(), Some(f.attributes()))?,
                 },
             )
         }
-        S::GenericFor(g) => St::GFor(
-            names_of(g.iter_identifiers())?,
-            g.iter_expressions().map(from_expr).collect::<Result<_, _>>()?,
-            from_block(g.get_block())?,
-        ),
-        S::NumericFor(f) => {
-            if f.get_identifier().has_type() {
-                return Err("typed identifier".into());
+        S::GenericFor(g) => {
+            let exprs = g.iter_expressions().map(from_expr).collect::<Result<_, _>>()?;
+            let body = from_block(g.get_block())?;
+            if g.iter_identifiers().any(|i| i.has_type()) {
+                St::GForT(
+                    g.iter_identifiers()
+                        .map(|v| {
+                            Ok((
+                                v.get_name().clone(),
+                                match v.get_type() {
+                                    Some(t) => Some(from_type(t)?),
+                                    None => None,
+                                },
+                            ))
+                        })
+                        .collect::<Result<_, String>>()?,
+                    exprs,
+                    body,
+                )
+            } else {
+                St::GFor(plain_names(g.iter_identifiers()), exprs, body)
             }
-            St::NFor(
-                f.get_identifier().get_name().clone(),
-                from_expr(f.get_start())?,
-                from_expr(f.get_end())?,
-                match f.get_step() {
-                    Some(s) => Some(from_expr(s)?),
-                    None => None,
-                },
-                from_block(f.get_block())?,
-            )
+        }
+        S::NumericFor(f) => {
+            let step = match f.get_step() {
+                Some(s) => Some(from_expr(s)?),
+                None => None,
+            };
+            let name = f.get_identifier().get_name().clone();
+            match f.get_identifier().get_type() {
+                Some(t) => St::NForT(name, from_type(t)?, from_expr(f.get_start())?, from_expr(f.get_end())?, step, from_block(f.get_block())?),
+                None => St::NFor(name, from_expr(f.get_start())?, from_expr(f.get_end())?, step, from_block(f.get_block())?),
+            }
         }
         S::If(i) => St::If(
             i.iter_branches()
@@ -704,7 +853,7 @@ pub fn from_statement(s: &n::Statement) -> Result<St, String> {
                     params: plain_names(f.iter_parameters()),
                     variadic: f.is_variadic(),
                     body: from_block(f.get_block())?,
-                    sig: sig_of(f.iter_parameters(), f.get_generic_parameters(), f.get_variadic_type(), f.get_return_type())?,
+                    sig: sig_of(f.iter_parameters(), f.get_generic_parameters(), f.get_variadic_type(), f.get_return_type(), Some(f.attributes()))?,
                 },
             )
         }
@@ -720,15 +869,33 @@ pub fn from_statement(s: &n::Statement) -> Result<St, String> {
                             Generic::VarDefault(v.get_type_variable().get_name().clone(), from_type(v.get_default_type())?)
                         }
                         n::GenericParameterRef::GenericTypePack(p) => Generic::Pack(p.get_name().get_name().clone()),
-                        n::GenericParameterRef::GenericTypePackWithDefault(_) => {
-                            return Err("generic pack default".into())
-                        }
+                        n::GenericParameterRef::GenericTypePackWithDefault(p) => Generic::PackDefault(
+                            p.get_generic_type_pack().get_name().get_name().clone(),
+                            match p.get_default_type() {
+                                n::GenericTypePackDefault::TypePack(pack) => PackDefault::Pack(from_pack(pack)?),
+                                n::GenericTypePackDefault::VariadicTypePack(v) => {
+                                    PackDefault::Var(TyVar::Variadic(from_type(v.get_type())?))
+                                }
+                                n::GenericTypePackDefault::GenericTypePack(g) => {
+                                    PackDefault::Var(TyVar::Generic(g.get_name().get_name().clone()))
+                                }
+                            },
+                        ),
                     });
                 }
             }
             St::TypeDecl(t.is_exported(), t.get_name().get_name().clone(), generics, from_type(t.get_type())?)
         }
-        S::TypeFunction(_) => return Err("type function".into()),
+        S::TypeFunction(f) => St::TypeFunction(
+            f.is_exported(),
+            f.get_identifier().get_name().clone(),
+            Func {
+                params: plain_names(f.iter_parameters()),
+                variadic: f.is_variadic(),
+                body: from_block(f.get_block())?,
+                sig: sig_of(f.iter_parameters(), f.get_generic_parameters(), f.get_variadic_type(), f.get_return_type(), None)?,
+            },
+        ),
     })
 }
 
@@ -784,6 +951,28 @@ pub fn norm_expr(e: &Ex) -> Ex {
             Box::new(norm_expr(e)),
         ),
         Ex::Cast(x, ty) => Ex::Cast(operand(x), norm_ty(ty)),
+        Ex::Inst(p, types) => Ex::Inst(Box::new(norm_expr(p)), types.iter().map(norm_ty).collect()),
+        Ex::MethodInst(p, m, types, args) => {
+            Ex::MethodInst(Box::new(norm_expr(p)), m.clone(), types.iter().map(norm_ty).collect(), norm_args(args))
+        }
+        // adjacent literal segments and empty ones are one literal for every reader
+        Ex::Interp(segments) => {
+            let mut out: Vec<Seg> = Vec::new();
+            for seg in segments {
+                match seg {
+                    Seg::Str(s) if s.is_empty() => {}
+                    Seg::Str(s) => {
+                        if let Some(Seg::Str(last)) = out.last_mut() {
+                            last.extend_from_slice(s);
+                        } else {
+                            out.push(Seg::Str(s.clone()));
+                        }
+                    }
+                    Seg::Val(v) => out.push(Seg::Val(norm_expr(v))),
+                }
+            }
+            Ex::Interp(out)
+        }
     }
 }
 
@@ -832,6 +1021,17 @@ pub fn norm_block(b: &Blk) -> Blk {
                     }
                 }
                 St::TypeDecl(e, name, g, t) => St::TypeDecl(*e, name.clone(), norm_generics(g), norm_ty(t)),
+                St::TypeFunction(e, name, f) => St::TypeFunction(*e, name.clone(), norm_func(f)),
+                St::GForT(n, e, b) => {
+                    if n.iter().all(|(_, t)| t.is_none()) {
+                        St::GFor(n.iter().map(|(name, _)| name.clone()).collect(), exprs(e), norm_block(b))
+                    } else {
+                        St::GForT(n.iter().map(|(name, t)| (name.clone(), t.as_ref().map(norm_ty))).collect(), exprs(e), norm_block(b))
+                    }
+                }
+                St::NForT(n, t, a, b, s, body) => {
+                    St::NForT(n.clone(), norm_ty(t), norm_expr(a), norm_expr(b), s.as_ref().map(norm_expr), norm_block(body))
+                }
                 St::Do(b) => St::Do(norm_block(b)),
                 St::CallSt(c) => St::CallSt(norm_expr(c)),
                 St::Compound(op, var, val) => St::Compound(*op, norm_expr(var), norm_expr(val)),
@@ -857,26 +1057,6 @@ pub fn norm_block(b: &Blk) -> Blk {
             Last::Return(v) => Last::Return(exprs(v)),
             other => other.clone(),
         }),
-    }
-}
-
-fn h2_blk_body(b: &Blk, ex: &dyn Fn(&Ex) -> bool, blk: &dyn Fn(&Blk) -> bool) -> bool {
-    b.stmts.iter().any(|s| match s {
-        St::Assign(a, v) => a.iter().any(ex) || v.iter().any(ex),
-        St::Local(_, v) | St::LocalT(_, v) => v.iter().any(ex),
-        St::TypeDecl(..) => false,
-        St::Do(b) => blk(b),
-        St::CallSt(c) => ex(c),
-        St::Compound(_, a, b) => ex(a) || ex(b),
-        St::Function(_, _, f) | St::LocalFn(_, f) => blk(&f.body),
-        St::GFor(_, e, b) => e.iter().any(ex) || blk(b),
-        St::NFor(_, a, b2, s, body) => ex(a) || ex(b2) || s.as_ref().map_or(false, ex) || blk(body),
-        St::If(br, e) => br.iter().any(|(c, b)| ex(c) || blk(b)) || e.as_ref().map_or(false, blk),
-        St::Repeat(b, c) => blk(b) || ex(c),
-        St::While(c, b) => ex(c) || blk(b),
-    }) || match &b.last {
-        Some(Last::Return(v)) => v.iter().any(ex),
-        _ => false,
     }
 }
 
@@ -908,8 +1088,16 @@ pub fn count_tuple_arguments(b: &Blk) -> usize {
             Ex::Nil | Ex::True | Ex::False | Ex::Varargs | Ex::Str(_) | Ex::Id(_) | Ex::Num(_) => 0,
             Ex::Paren(x) | Ex::Un(_, x) | Ex::Field(x, _) => ex(x),
             Ex::Cast(x, t) => ex(x) + ty(t),
+            Ex::Inst(p, types) => ex(p) + types.iter().map(ty).sum::<usize>(),
+            Ex::Interp(segments) => segments
+                .iter()
+                .map(|s| match s {
+                    Seg::Str(_) => 0,
+                    Seg::Val(v) => ex(v),
+                })
+                .sum(),
             Ex::Bin(_, l, r) | Ex::Index(l, r) => ex(l) + ex(r),
-            Ex::Call(p, _, a) => {
+            Ex::Call(p, _, a) | Ex::MethodInst(p, _, _, a) => {
                 ex(p)
                     + match a {
                         Args::Tuple(v) => 1 + v.iter().map(ex).sum::<usize>(),
@@ -929,6 +1117,9 @@ pub fn count_tuple_arguments(b: &Blk) -> usize {
             St::Assign(a, v) => exs(a) + exs(v),
             St::Local(_, v) | St::LocalT(_, v) => exs(v),
             St::TypeDecl(..) => 0,
+            St::TypeFunction(_, _, f) => func(f),
+            St::GForT(_, e, b) => exs(e) + count_tuple_arguments(b),
+            St::NForT(_, _, a, b2, s, body) => ex(a) + ex(b2) + s.as_ref().map_or(0, ex) + count_tuple_arguments(body),
             St::Do(b) => count_tuple_arguments(b),
             St::CallSt(c) => ex(c),
             St::Compound(_, a, b) => ex(a) + ex(b),
